@@ -64,6 +64,14 @@ def judge(case, impl, model, spec=None):
     if lost:
         which = lost.group(1) or ""
         return ("lost-data" + which, "a call that reported failure had already changed the stored bytes: " + impl[:300])
+    # calls that all reported success must have stored what the reference list says (the model's bytes are the encoding of
+    # the reference list: c05_step_refines), whatever allocation failed along the way
+    mt_i = re.search(r" tags=(\S+)", impl)
+    mt_m = re.search(r" tags=(\S+)", model or "")
+    r_i = re.search(r" r=([-\d,()A-Z:a-z]+)", impl)
+    if mt_i and mt_m and r_i and "-" not in r_i.group(1) and mt_i.group(1) != mt_m.group(1):
+        return ("wrong-tags-after-success", "every call reported success but the stored bytes are %s, the reference list gives %s: %s"
+                % (mt_i.group(1)[:80], mt_m.group(1)[:80], case[:160]))
     # an allocation failed (=F in the trace): some call must have reported an error, unless the failed one was a
     # shrinking realloc whose failure is harmless
     t = case.split()
